@@ -3,8 +3,8 @@
    derivable F R h f   f has a derivation tree of height <= h: height 0 = a stored fact; a rule application
                        whose premises have height <= h has height <= h+1.
    least_model F R f   f has a derivation of some height.
-   Rule filters (numeric comparisons on the value a variable is bound to) restrict rule instances, as in the
-   forward-chaining engine (rules.rs evaluate_filters); `num` gives the numeric value of a constant.
+   Rule filters restrict rule instances with the semantics of rules.rs evaluate_filters on ground instances;
+   `num` gives the numeric value of a constant.
 
    `level` is the executable counterpart (bottom-up immediate consequence, h rounds); SpecProofs.level_correct
    proves  In f (level num F R h) <-> derivable num F R h f  for safe rules. *)
@@ -18,17 +18,13 @@ Definition eval (nu : valuation) (t : term) : N :=
 Definition eval_atom (nu : valuation) (a : atom) : fact :=
   let '(s, p, o) := a in (eval nu s, eval nu p, eval nu o).
 
-Definition cmp_holds (op : cmp) (a b : Z) : bool :=
-  match op with
-  | CGt => Z.ltb b a
-  | CLt => Z.ltb a b
-  | CGe => Z.leb b a
-  | CLe => Z.leb a b
-  | CEq => Z.eqb a b
-  | CNe => negb (Z.eqb a b)
-  end.
+(* evaluate_filters on a ground rule instance (every variable has a value): a numeric value compares the
+   numeric value of the constant; a variable value compares identifiers, = and != only *)
 Definition filter_holds (num : N -> Z) (nu : valuation) (f : fcond) : bool :=
-  cmp_holds (fop f) (num (nu (fvar f))) (fnum f).
+  match fval f with
+  | FNum z => cmp_num (fop f) (num (nu (fvar f))) z
+  | FVar y => cmp_id (fop f) (nu (fvar f)) (nu y)
+  end.
 
 Inductive derivable (num : N -> Z) (F : list fact) (R : list rule) : nat -> fact -> Prop :=
 | d_fact : forall h f, In f F -> derivable num F R h f
@@ -47,13 +43,16 @@ Definition atom_vars (a : atom) : list string :=
   let '(s, p, o) := a in term_vars s ++ term_vars p ++ term_vars o.
 Definition atoms_vars (l : list atom) : list string := flat_map atom_vars l.
 Definition mem (x : string) (l : list string) : bool := existsb (String.eqb x) l.
+Definition filter_vars (f : fcond) : list string :=
+  fvar f :: match fval f with FVar y => [y] | FNum _ => [] end.
 (* every conclusion variable and every filter variable occurs in a premise *)
 Definition safe_rule (r : rule) : bool :=
   forallb (fun x => mem x (atoms_vars (prem r))) (atoms_vars (concl r)) &&
-  forallb (fun f => mem (fvar f) (atoms_vars (prem r))) (filters r).
+  forallb (fun f => forallb (fun x => mem x (atoms_vars (prem r))) (filter_vars f)) (filters r).
 Definition safe_rules (R : list rule) : bool := forallb safe_rule R.
 
-(* the class of the open finding C18-filters-ignored: some rule carries a filter *)
+(* some rule carries a filter (class of the former finding C18-filters-ignored, repaired by 8d76413; kept because
+   rule sets without filters need no safety hypothesis) *)
 Definition known_C18 (R : list rule) : bool :=
   existsb (fun r => match filters r with [] => false | _ => true end) R.
 
